@@ -9,6 +9,7 @@
 
   seeded.py check-all [--only-missing] [id ...]  `check` for every seeded/<id>; outcomes recorded in seeded/results.json
   seeded.py meta-refresh                      copy the outcome of confirm.json into the 'confirmed' field of meta.json
+  seeded.py rerun-failures <seeded-dir>       re-run alone the stable tests that failed in the loaded full-suite run of confirm --suite
   seeded.py summary                           rewrite the per-property summary table in DESIGN.md section 10
   seeded.py readme                            regenerate seeded/README.md from meta.json + results.json (+ seeded/NOTES.md)
   seeded.py stage <agent-out-dir> Cxx k       copy the agent's patch<k>.diff / demo<k>.py / notes<k>.md to seeded/Cxx-m<k>/
@@ -65,6 +66,16 @@ def remove(wt):
     shutil.rmtree(wt, ignore_errors=True)
 
 
+def warm(wt, env):
+    """A fresh worktree has neither the generated parser tables (git-ignored build products: the children that the
+    integration tests start would all write them at the same time and read each other's half-written files) nor byte-code
+    files (every xonsh child would compile all modules first and miss the tests' 5-second deadlines)."""
+    e = dict(env, PYTHONPATH=wt)
+    sh([PY, "-c", "from xonsh.parser import Parser; Parser().parse(\"1\\n\"); "
+                  "from xonsh.parsers.completion_context import CompletionContextParser; CompletionContextParser()"], cwd=wt, env=e)
+    sh([PY, "-m", "compileall", "-q", "xonsh"], cwd=wt, env=e)
+
+
 def find_demo(d):
     for n in sorted(os.listdir(d)):
         if n.startswith(("demo", "test_demo")) and n.endswith(".py"):
@@ -112,6 +123,7 @@ def confirm(d, suite):
             junit = "/var/tmp/seed-%s-junit.xml" % tag
             env = dict(os.environ)
             env.pop("XONSH_XONSH_VERIF", None)
+            warm(wt, env)
             sh([PY, "-m", "pytest", "-q", "-p", "no:cacheprovider", "--timeout=900", "--continue-on-collection-errors", "-n", "4",
                 "--junitxml=" + junit], cwd=wt, env=env, timeout=3600)
             rc, out = sh([sys.executable, os.path.join(VERIF, "tools", "baseline_diff.py"), junit])
@@ -284,6 +296,56 @@ def summary():
     return 0
 
 
+def rerun_failures(d):
+    """The suite ran under load: tests of BASELINE stable_pass that did not pass in the full run are run again alone, in
+    a fresh patched worktree; confirm.json is updated (suite_ok = all of them pass alone)."""
+    cp = os.path.join(d, "confirm.json")
+    c = json.load(open(cp))
+    if c.get("suite_ok") is not False:
+        print(d, "nothing to re-run")
+        return 0
+    tests = []
+    for ln in c.get("suite_full") or c.get("suite") or []:
+        ln = ln.strip()
+        if ln.startswith("failure ") or ln.startswith("missing ") or ln.startswith("error "):
+            tid = ln.split(" ", 1)[1]
+            mod, _, rest = tid.partition("::")
+            tests.append(mod.replace(".", "/") + ".py::" + rest)
+    if not tests:
+        print(d, "no test ids recorded")
+        return 1
+    tag = os.path.basename(os.path.normpath(d))
+    wt, rev = patched_worktree(d, tag + "-rr")
+    try:
+        env = dict(os.environ)
+        env.pop("XONSH_XONSH_VERIF", None)
+        # a fresh worktree has no byte-code files: every xonsh child of the integration tests would compile all modules first
+        # and miss the tests' 5-second deadlines
+        warm(wt, env)
+        junit = "/var/tmp/seed-%s-rr.xml" % tag
+        sh([PY, "-m", "pytest", "-q", "-p", "no:cacheprovider", "--timeout=900", "--junitxml=" + junit] + tests, cwd=wt, env=env, timeout=3600)
+        import xml.etree.ElementTree as ET
+
+        bad = []
+        n = 0
+        for tc in ET.parse(junit).getroot().iter("testcase"):
+            n += 1
+            if any(ch.tag in ("failure", "error") for ch in tc):
+                bad.append(tc.get("classname", "") + "::" + tc.get("name", ""))
+        os.unlink(junit)
+    finally:
+        remove(wt)
+    c["suite_rerun_alone"] = {"tests": len(tests), "ran": n, "still_failing": bad}
+    if n >= len(tests) and not bad:
+        c["suite_ok"] = True
+        c["suite"] = [c["suite"][0] + " in the full run under load; all of them pass when re-run alone with the patch"] + c["suite"][1:]
+    c["confirmed"] = c.get("demo_unpatched_rc") == 0 and c.get("demo_patched_rc", 0) != 0 and c.get("suite_ok", True)
+    with open(cp, "w") as f:
+        json.dump(c, f, indent=1)
+    print(d, "suite_ok" if c["suite_ok"] else "STILL FAILING %r" % bad)
+    return 0
+
+
 def stage(src, prop, k):
     """copy <src>/patch<k>.diff, demo<k>.py, notes<k>.md to seeded/<prop>-m<k>/"""
     d = os.path.join(VERIF, "seeded", "%s-m%s" % (prop, k))
@@ -306,6 +368,8 @@ if __name__ == "__main__":
         raise SystemExit(__doc__)
     if sys.argv[1] == "check-all":
         sys.exit(check_all("--only-missing" in sys.argv, [a for a in sys.argv[2:] if not a.startswith("-")]))
+    if sys.argv[1] == "rerun-failures":
+        sys.exit(rerun_failures(sys.argv[2]))
     if sys.argv[1] == "summary":
         sys.exit(summary())
     if sys.argv[1] == "meta-refresh":
